@@ -1,8 +1,6 @@
-// Package c05: stub (property not built yet).
 package c05
 
 import "verifharness/hk"
 
-func NewExec() func(w []string) string { return func([]string) string { return "bad-op" } }
-
+// Run is replaced by gen.go once the generator exists.
 func Run(r *hk.Run) { r.Note("not built yet") }
